@@ -99,6 +99,14 @@ pub mod c15 {
         pub fn second_printer(n: f64) -> String {
             format!("{}", n)
         }
+        /// BAD (R5, second half): Rust's to_string() is the same second printer
+        pub fn third_printer(n: f64) -> String {
+            n.to_string()
+        }
+        /// GOOD: an integer's to_string() is not a number printer
+        pub fn int_text(i: u32) -> String {
+            i.to_string()
+        }
         pub fn to_fixed(n: f64, digits: usize) -> String {
             format!("{:.prec$}", n, prec = digits)
         }
@@ -314,6 +322,31 @@ pub mod c13 {
             self.cur += 1;
             if self.cur >= self.words { return None; }
             Some(self.cur << 6)
+        }
+    }
+}
+
+// C13 O9 controls: buffers entering a pool of recycled root lists
+pub mod c13pool {
+    use std::ptr::NonNull;
+    pub struct Space { pub pool: Vec<Vec<NonNull<u64>>> }
+    impl Space {
+        pub fn good_return(&mut self, mut b: Vec<NonNull<u64>>) {
+            if self.pool.len() < 16 { b.clear(); self.pool.push(b); }
+        }
+        pub fn good_hoisted_clear(&mut self, mut b: Vec<NonNull<u64>>) {
+            b.clear();
+            if self.pool.len() < 16 { let moved = b; self.pool.push(moved); }
+        }
+        pub fn bad_return(&mut self, b: Vec<NonNull<u64>>) {
+            if self.pool.len() < 16 { self.pool.push(b); }
+        }
+        pub fn bad_swap(&mut self, mut b: Vec<NonNull<u64>>) {
+            if let Some(s) = self.pool.iter_mut().min_by_key(|s| s.capacity()) { std::mem::swap(s, &mut b); }
+        }
+        pub fn good_swap(&mut self, mut b: Vec<NonNull<u64>>) {
+            b.clear();
+            if let Some(s) = self.pool.iter_mut().min_by_key(|s| s.capacity()) { std::mem::swap(s, &mut b); }
         }
     }
 }
@@ -845,6 +878,16 @@ pub mod idx {
     pub fn guarded(v: &[u32], i: usize) -> u32 { if i < v.len() { v[i] } else { 0 } }
     /// GOOD: not empty, index 0
     pub fn guarded_first(v: &Vec<u32>) -> u32 { if v.is_empty() { return 0; } v[0] }
+    /// BAD: byte 48 may be inside a character
+    pub fn cut_at_constant(s: &mut String) { if s.len() > 48 { s.truncate(48); } }
+    /// BAD: a character count is not a byte position
+    pub fn cut_at_char_count(s: &mut String, want: usize) { let n = want - s.chars().count(); s.truncate(n); }
+    /// GOOD: a byte length of a text
+    pub fn cut_at_own_length(s: &mut String, t: &str) { let n = t.len(); s.truncate(n); }
+    /// GOOD: a byte offset found in the text
+    pub fn cut_at_found(s: &mut String) { if let Some(i) = s.find(':') { s.truncate(i); } }
+    /// GOOD: position 0
+    pub fn prepend(s: &mut String, c: char) { s.insert(0, c); }
 }
 
 // C16 R4 controls: a member left out because of what it converts to
